@@ -13,9 +13,9 @@ layout = {"sep": [ints], "case": [ints], "crlf": bool, "tail": int}
         sep[i % len]  chooses the separator of gap i, case[j % len] the spelling of keyword j.
 Everything is a pure function of (tokens, layout): no RNG here.
 
-Carve-outs (DESIGN 3, K5/K6): a separator directly in front of a quoted literal never starts with a
-line break or a tab, and a literal is never glued to a preceding ')' - such draws are coerced to one
-blank and counted by the caller through the returned stats.
+Carve-outs (DESIGN 3, K5/K6): a separator directly in front of a quoted literal never *ends* with a line
+break, is never a single tab after a word, and a literal is never glued to a preceding ')' - such draws
+are coerced to one blank and counted by the caller through the returned stats.
 """
 import re
 
@@ -129,7 +129,9 @@ def render_statement(tokens, layout=None, gap0=0, kw0=0, stats=None):
                 if "\n" in sep and (_LINE_START_BAD.match(tok[0]) or _COMMENT_START.match(tok[0])):
                     sep = " "
                 if role == "L":
-                    if sep[:1] in ("\n", "\t") or sep == " \t ":
+                    # K5: a line break directly in front of the quote; K6: one tab between a word and the quote (the word may be
+                    # glued to a preceding ',' or ')'). Indented line breaks ("\n  ", "\n\t") and blank-padded tabs are fine.
+                    if sep.endswith("\n") or (sep == "\t" and prev[1] != "P"):
                         if stats is not None:
                             stats["K5K6_coerced"] = stats.get("K5K6_coerced", 0) + 1
                         sep = " "
